@@ -128,6 +128,15 @@ func MakeConfig(seed uint64, profile, tier string) SwarmConfig {
 		if r.IntN(2) == 0 {
 			c.PriceJump = 0.05
 		}
+		if r.IntN(4) == 0 {
+			// neglect: months pass in single blocks and no bot liquidates, so interest and funding eat
+			// positions' custody before their owners come back
+			f.LongGap = true
+			f.ClockJump = 0.08
+			c.Rate["liquidator"] = 0
+			c.PriceVol = 0.0005
+			c.PriceJump = 0
+		}
 	case "C10":
 		emph("perp", "levlp", "liquidator", "lender")
 		c.PriceVol = pick(r, []float64{0.02, 0.06})
